@@ -692,6 +692,9 @@ def wave8_rules(ctx):
     lf = [x for x in casts if "value" in x]
     obs.append(ob("C14.literal/no-int-cast", not lf, "stringify/expr.rs", "the printer does not squeeze a numeric value through an integer type" if not lf else "numeric value cast to an integer before printing: %s" % lf[:2],
                   witness=None if not lf else "{{ 1e19 }} is printed as 9223372036854775807"))
+    # the float writer itself is shared with the code generator (same function, same rule as C03.literal/float-display)
+    from rules.c03 import float_display_rule
+    obs += float_display_rule(ctx, "C14.literal")
     return obs
 
 
